@@ -986,6 +986,11 @@ def gen_server_liveness(rng):
         passes.append({"tx": [], "hs": [], "io": [[i, {"recvs": [block_ans(kind, rng.randrange(2))],
                                                        "send": ["acc", rng.randint(1, 4)]}] for i in ids]})
     case = {"scene": "server", "tls": tls, "ix0": ix0, "cx0": cx0, "passes": passes}
+    if rng.random() < 0.5:
+        case["tymth"] = "none"         # server born unwound, wound later while its connections carry traffic
+    for p in passes:
+        if rng.random() < 0.25:
+            p["wind"] = [rng.choice(["server", "doer"]), rng.choice(["a", "b"])]
     if rng.random() < 0.6:
         case["wl"] = True              # WireLog given to the SERVER
     if rng.random() < 0.7:
